@@ -137,7 +137,11 @@ func (e *explorer) record(x *Exec, counted bool) {
 		add("panic", panicSig(first), x.Panic)
 	}
 	if x.Deadlock != "" {
-		add("deadlock", "deadlock", x.Deadlock)
+		sig := x.DeadlockSig
+		if sig == "" {
+			sig = "deadlock"
+		}
+		add("deadlock", sig, x.Deadlock)
 	}
 	if x.Horizon {
 		e.res.Horizons++
